@@ -748,6 +748,10 @@ def run_context_kinds(job):
             return [{"processor": "rename:unit:units"}], coll(2), coll_ctx(2, "mm")
         if i == 3:
             return [{"processor": "delete:exposure"}], coll(3), coll_ctx(3, "cm")
+        if i == 5:      # context keys named like the words the queue itself uses
+            return [{"processor": FloatMultiplyOperation, "parameters": {"factor": 2}}], FloatDataType(2.5), ContextType({"error": 0.25, "status": "raw", "metadata": {"error": "none"}})
+        if i == 6:      # a node writes a key called `error` (an error estimate)
+            return [{"processor": FloatMultiplyOperation, "parameters": {"factor": 7}}, {"processor": FloatCollectValueProbe, "context_key": "error"}], FloatDataType(3.0), ContextType({})
         return [{"processor": FloatMultiplyOperation, "parameters": {"factor": 2}}], FloatDataType(1.5), ContextType({})
 
     def describe(data, ctx):
@@ -758,7 +762,7 @@ def run_context_kinds(job):
             shared, items = ctx.to_dict(), None
         shared.pop("job_id", None)
         return [str(data), type(ctx).__name__, json.dumps(shared, sort_keys=True, default=repr), json.dumps(items, sort_keys=True, default=repr)]
-    n = 5
+    n = 8
     expected = []
     for i in range(n):
         cfg, data, ctx = mk(i)
@@ -777,16 +781,21 @@ def run_context_kinds(job):
     try:
         futs = []
         for i in range(n):
+            if i % 3 == 0:      # fire-and-forget jobs (no Future asked for) in between the awaited ones
+                cfg, data, ctx = mk(7)
+                orch.enqueue(cfg, data=data, context=ctx, return_future=False)
             cfg, data, ctx = mk(i)
             futs.append(orch.enqueue(cfg, data=data, context=ctx, return_future=True))
+        deadline = time.time() + 20
         for i, fut in enumerate(futs):
             try:
-                data, ctx = fut.result(timeout=20)
+                data, ctx = fut.result(timeout=max(0.2, deadline - time.time()))
                 got = ["ok"] + describe(data, ctx)
             except Exception as exc:  # noqa
                 got = ["error", type(exc).__name__]
             if got != expected[i]:
-                kind = ["plain", "none", "collection-rename-global", "collection-delete-element-key", "empty"][i]
+                kind = ["plain", "none", "collection-rename-global", "collection-delete-element-key", "empty", "keys-named-error-status-metadata",
+                        "node-writes-key-named-error", "plain-after-fire-and-forget"][i]
                 problems.append(["C15:wrong-result:context-kind:" + kind, "job %d (context kind %s): Future %s, direct execution %s" % (i, kind, got, expected[i])])
     finally:
         try:
